@@ -45,6 +45,19 @@ def nt_wire(imp, ops):
     return any(l.startswith("av ") and '"Update"' in l for l in imp)
 
 
+import re as _re
+
+
+def re_match_x3(l):
+    m = _re.match(r"X (\d+) ", l)
+    return bool(m) and int(m.group(1)) >= 3
+
+
+TB_REP = TB_COMMON + ["modelled, not verified: each replica action is one atomic storage transaction; storage enumeration order is an input"]
+REP_RULE = ("one replica (in-memory, one third on SQLite): random sequences of arbitrary operation batches (creates, deletes with old contents, updates with "
+            "old values, undo points; 1/4 of cases also commit invalid operations and untrue old values), get_undo_operations, undo, undo of stale lists, "
+            "working-set rebuilds in both modes, expire_tasks, syncs against a private server; a full dump after every action")
+
 HIST_Q = {"cases": 400, "max_len": 30}
 HIST_T = {"cases": 20000, "max_len": 80}
 
@@ -140,5 +153,66 @@ PROPS = {
                 "(proved winners) is compared line by line; non-trivial = at least two concurrent updates of the shared task; distinct by SHA-1",
         "trusted_base": TB_SYNC,
         "assumptions": ["valid local operations", "three-replica order independence is exercised by the correspondence run; the Lean theorem is for two replicas (TP2 not yet proved)"],
+    },
+    "C05": {
+        "module": "TcVerif.Props.C05",
+        "theorems": ["Tc.C05_batch_equals_one_at_a_time", "Tc.C05_create_rule", "Tc.C05_update_rule", "Tc.C05_delete_rule",
+                     "Tc.C05_missing_noop", "Tc.C05_logged_in_order", "Tc.C05_commit_preserves_invariant", "Tc.C05_all_or_nothing",
+                     "Tc.cached_eq_fold", "Tc.foldl_applyLocal_eq"],
+        "leanchecker_modules": ["TcVerif.Proofs.Cached"],
+        "runs": [
+            {"family": "rep", "flags": [], "quick": {"cases": 400, "max_len": 25}, "thorough": {"cases": 20000, "max_len": 60}},
+        ],
+        "judge_preds": ["invariant", "log"],
+        "nontrivial": lambda imp, ops: any(re_match_x3(l) for l in ops),
+        "rule": REP_RULE + "; non-trivial = the case commits a batch of at least three operations; distinct by SHA-1 of the case lines",
+        "trusted_base": TB_REP,
+        "assumptions": ["a StorageTxn is atomic: commit installs everything, dropping installs nothing (C06, C16)"],
+    },
+    "C07": {
+        "module": "TcVerif.Props.C07",
+        "theorems": ["Tc.C07_undo_restores", "Tc.C07_undone_never_sent", "Tc.C07_mismatch_noop", "Tc.C07_no_undo_after_sync",
+                     "Tc.C07_get_undo_ops", "Tc.undo_restores"],
+        "leanchecker_modules": ["TcVerif.Proofs.Undo"],
+        "runs": [
+            {"family": "rep", "flags": [], "quick": {"cases": 400, "max_len": 25}, "thorough": {"cases": 20000, "max_len": 60}},
+        ],
+        "judge_preds": ["undo", "invariant"],
+        "nontrivial": lambda imp, ops: any(a.startswith("> U") and b == "true" for a, b in zip(imp, imp[1:])),
+        "rule": REP_RULE + "; non-trivial = some undo succeeded; distinct by SHA-1 of the case lines",
+        "trusted_base": TB_REP,
+        "assumptions": ["operations were recorded by the editing API (valid, true old values: C19); cases flagged wild=1 commit untrue old values and are exempt from the invariant predicate",
+                        "edge recorded, not a finding: a list consisting only of undo points is withdrawn but reported as false"],
+    },
+    "C15": {
+        "module": "TcVerif.Props.C15",
+        "theorems": ["Tc.C15_slot0", "Tc.C15_no_renumber_stable", "Tc.C15_no_renumber_newcomers_after", "Tc.C15_renumber_compact",
+                     "Tc.C15_renumber_order", "Tc.C15_exact", "Tc.C15_commit_adds_at_end", "Tc.C15_commit_adds_iff"],
+        "leanchecker_modules": [],
+        "runs": [
+            {"family": "rep", "flags": [], "quick": {"cases": 400, "max_len": 25}, "thorough": {"cases": 20000, "max_len": 60}},
+        ],
+        "judge_preds": ["ws"],
+        "nontrivial": lambda imp, ops: any(l.startswith("> W") for l in imp) and any(l.startswith("ws ") and len(l.split()) >= 4 for l in imp),
+        "rule": REP_RULE + "; non-trivial = a rebuild ran in a case whose working set reached at least two entries after slot 0; distinct by SHA-1",
+        "trusted_base": TB_REP + ["the mutual order of working-set newcomers follows the storage's enumeration order, which the harness records and feeds to the model; that the enumeration is exactly the stored tasks is checked"],
+        "assumptions": ["the prior working set has no duplicates (an invariant of commit/rebuild; checked by the judge at every dump)"],
+    },
+    "C20": {
+        "module": "TcVerif.Props.C20",
+        "theorems": ["Tc.C20_expiry_days", "Tc.C20_predicate", "Tc.C20_other_status_kept", "Tc.C20_unreadable_kept", "Tc.C20_recent_kept",
+                     "Tc.C20_expire_exact", "Tc.C20_expiry_propagates", "Tc.C03_delete_beats_update"],
+        "leanchecker_modules": [],
+        "runs": [
+            {"family": "rep", "flags": [], "quick": {"cases": 400, "max_len": 25}, "thorough": {"cases": 20000, "max_len": 60}},
+            {"family": "hist", "flags": ["--conflicts"], "quick": {"cases": 120, "max_len": 30}, "thorough": {"cases": 4000, "max_len": 30}},
+        ],
+        "judge_preds": ["expire", "orderindep", "converged"],
+        "nontrivial": lambda imp, ops: any(l.startswith("expire ok ") and l != "expire ok 0" for l in imp),
+        "rule": REP_RULE + "; statuses x modification times (now-179d, -181d, -200..1200d, future, missing, non-numeric, empty, out of i64 / chrono range, '+5'); "
+                "the +-2 s window around now-180d is not generated (Utc::now() cannot be injected); propagation: conflict groups (delete vs concurrent "
+                "update in every sync order) of family hist; non-trivial = an expiry deleted at least one task; distinct by SHA-1",
+        "trusted_base": TB_REP + ["Utc::now() read by the harness immediately before expire_tasks stands for the instant the library reads"],
+        "assumptions": ["boundary within 2 s of now-180 days excluded"],
     },
 }
